@@ -108,7 +108,13 @@ func c04Expr(e *scopedExprGen, depth int, t ty) (string, bool) {
 		switch r.Intn(4) {
 		case 3:
 			// (the Go functions return a float for a float argument)
-			return []string{"floor(", "ceiling(", "round("}[r.Intn(3)] + e.atom(tFloat) + ")", true
+			fn, arg := []string{"floor(", "ceiling(", "round("}[r.Intn(3)], e.atom(tFloat)
+			if fn == "round(" && strings.HasPrefix(arg, "$") {
+				// a variable may hold a negative half although no datum is one (a {let}, or the {param} of a
+				// callee, computed from data: 2.5 - 100) — the known divergence c04:round-negative-half
+				arg = "(" + arg + ") < 0 ? 0.5 : " + arg
+			}
+			return fn + arg + ")", true
 		case 0:
 			return p(e.expr(d, tFloat)) + " " + []string{"+", "-"}[r.Intn(2)] + " " + p(e.expr(d, tInt)), true
 		case 1:
@@ -342,7 +348,7 @@ func init() {
 	}
 	register(&Prop{
 		ID: "C04exec",
-		Rule: "translation validation: generated bundles of the COMMON SUBSET (well-typed operands, small ints, floats from 1e-7 to 1e9 in both notations (floor/ceiling/round of larger ones leave the integer range; larger magnitudes are hand cases), same-type equality, round/floor/ceiling of non-negative floats only, the directives escapeHtml/noAutoescape/id/truncate/changeNewlineToBr/insertWordBreaks, no keys() order, no randomInt, strings within the BMP (otto)), " +
+		Rule: "translation validation: generated bundles of the COMMON SUBSET (well-typed operands, small ints, floats from 1e-7 to 1e9 in both notations (floor/ceiling/round of larger ones leave the integer range; larger magnitudes are hand cases), same-type equality, no round() of a negative half (the data hold none; round of a variable is guarded by `$v < 0 ? 0.5 : $v`), the directives escapeHtml/noAutoescape/id/truncate/changeNewlineToBr/insertWordBreaks, no keys() order, no randomInt, strings within the BMP (otto)), " +
 			"all features otherwise (control flow, let, calls across files with data=all / data=$m / value and content params, msg and plural, globals, $ij, autoescape modes, css, log, debugger, literal text); each template x 2 data sets (every declared param supplied) x {no bundle, identity bundle, reversed bundle}: " +
 			"Go renderer output versus the string returned by the soyjs-generated function run in otto with soyutils.js; plus hand-written programs for the divergences named in the property; non-trivial = the Go output is not empty",
 		Gen:     genC04exec,
